@@ -2,14 +2,15 @@ import os
 import sys
 ID = 'C18'
 LEVEL = 'other'
-CONTRACT_MODULES = ['contracts.models']
+CONTRACT_MODULES = ['contracts.models', 'contracts.regions']
 ORACLE_MODULES = ['rt.oracles_time']
 
 
 def _cone():
     sys.path.insert(0, os.path.join(os.path.dirname(__file__), '..'))
     from contracts.models import result_classes
-    return ['lemma:csep.load_evaluation_result[%s]' % n for n in result_classes()]
+    return ['lemma:csep.load_evaluation_result[%s]' % n for n in result_classes()] + [
+        'lemma:C18:CartesianGrid2D.from_dict(to_dict(region)) rebuilds from the same origins in the same order']
 
 
 CONE = _cone()
@@ -21,8 +22,8 @@ TRUSTED = [
     'pyvc engine, z3 5.1',
 ]
 ASSUMPTIONS = [
-    'which leaf types each evaluation function stores (numpy scalars, arrays, inf/nan/None) and the region round trip are covered by the '
-    'bounded stand-in only (run every evaluation -> JSON -> load; rebuild regions from their dict form)',
+    'which leaf types each evaluation function stores (numpy scalars, arrays, inf/nan/None) is covered by the bounded stand-in only (run every evaluation -> JSON -> load)',
+    'region round trip: proved that from_dict(to_dict(region)) hands from_origins the origins of the cells in their original order with the original spacing (any number of cells); that the constructor maps equal arguments to equal lookups is determinism of a pure function and, with float formatting through JSON, is covered by the bounded stand-in',
 ]
 EXPLANATION = ('for every result class C in csep/models.py: the real C.__init__, C.to_dict, csep.load_evaluation_result and C.from_dict are executed '
                'symbolically on a result with symbolic statistic/quantile/distribution: the type tag written is a key of the factory mapping to C '
